@@ -835,6 +835,52 @@ pub fn reentrant_part(rep: &Report, who: &str) -> u64 {
 }
 
 /// Settings copied with clone_from instead of clone / setters: the copy renders exactly what the source renders.
+/// Re-applying a value read back through a getter must leave the engine exactly where a fresh engine given that value
+/// is: [set(f), set(get())] against [set(g)], g being what the getter returned - bit-equal waveforms. A setter that
+/// "has nothing to do" when the new value equals the getter's keeps internal state (e.g. the linear gain of f) that
+/// the getter does not show (s246).
+fn reapply_part(rep: &Report) {
+    let utts = utterances();
+    let u = &utts[0];
+    let mut n = 0u64;
+    let mut moved = 0u64;
+    for kind in [0usize, 2] {
+        let base = engine_kind(kind);
+        let mut cases: Vec<(Act, fn(&jbonsai::engine::Condition) -> f64, fn(f64) -> Act)> = Vec::new();
+        for i in 0..240 {
+            let x = i as f64 * 0.1337 + 1e-3 / (i as f64 + 3.0);
+            cases.push((Act::Volume(-24.0 + x), |c| c.get_volume(), Act::Volume));
+            if i < 40 {
+                cases.push((Act::Speed(0.5 + x / 16.0), |c| c.get_speed(), Act::Speed));
+                cases.push((Act::HalfTone(-6.0 + x / 2.7), |c| c.get_additional_half_tone(), Act::HalfTone));
+                cases.push((Act::Alpha(x / 40.0), |c| c.get_alpha(), Act::Alpha));
+                cases.push((Act::Beta(x / 45.0), |c| c.get_beta(), Act::Beta));
+                cases.push((Act::Msd(1, x / 33.0), |c| c.get_msd_threshold(1), |v| Act::Msd(1, v)));
+                cases.push((Act::Gv(0, x / 20.0), |c| c.get_gv_weight(0), |v| Act::Gv(0, v)));
+            }
+        }
+        for (act, get, mk) in cases {
+            n += 1;
+            rep.eval(1);
+            rep.cmp(1);
+            let mut e1 = base.clone();
+            act.apply(&mut e1.condition);
+            let g = get(&e1.condition);
+            mk(g).apply(&mut e1.condition);
+            let mut e2 = base.clone();
+            mk(g).apply(&mut e2.condition);
+            if format!("{:?}", act) != format!("{:?}", mk(g)) {
+                moved += 1;
+            }
+            match (catch(|| synth(&e1, u)), catch(|| synth(&e2, u))) {
+                (Ok(Ok(a)), Ok(Ok(b))) if bits_eq(&a, &b) => {}
+                (a, b) => rep.violation("reapply-getter", format!("voice kind {}: after {:?} and then re-applying the value its getter returns ({:?}) the engine renders differently from a fresh engine given {:?}: {:?} vs {:?}", kind, act, mk(g), mk(g), a.map(|r| r.map(|x| x.len())), b.map(|r| r.map(|x| x.len()))), json!({"part": "reapply", "voice_kind": kind, "first": act.to_json(), "then": mk(g).to_json(), "utterance": u})),
+            }
+        }
+    }
+    rep.note("reapply_getter_cases", json!({"cases": n, "getter_value_differs_from_argument": moved}));
+}
+
 fn clone_from_part(rep: &Report) {
     let utts = utterances();
     let mut n = 0u64;
@@ -1165,6 +1211,7 @@ pub fn run(tier: Tier) -> i32 {
     cross_engine_part(rep);
     reentrant_part(rep, "");
     clone_from_part(rep);
+    reapply_part(rep);
     let utts = utterances();
     let mut total_sched = 0u64;
     let mut multi_trace = 0usize;
